@@ -86,7 +86,7 @@ def gen_case(rng, i):
               "objective": ["unity", "max"][rng.integers(2)],
               "scale_w": (float(rng.uniform(0.5, 2)) if rng.integers(2) else rng.uniform(0.3, 3, 2)),
               "d1": float(10 ** rng.uniform(-6, -3)), "dr": float(10 ** rng.uniform(-6, -3)),
-              "solver": ["default", "clarabel"][rng.integers(2)]})
+              "solver": ["default", "clarabel"][rng.integers(2)], "registered": bool(rng.integers(5) == 0)})
     return s
 
 
@@ -131,8 +131,9 @@ def chk_case(inp, c):
     est = gen.live_or_new(c, dreye, inp)
     del c.events[:]          # only the events of the judged call
     kw = dict(solver=cp.CLARABEL) if inp["solver"] == "clarabel" else {}
-    okc, out = c.try_call(est.fit_adaptive, B.copy(), neutral_point=(None if inp["neutral"] is None else inp["neutral"].copy()),
-                          delta_norm1=d1, delta_radius=dr, adaptive_objective=obj, scale_w=inp["scale_w"], **kw)
+    okc, out = gen.est_query(c, est, "fit_adaptive", B.copy(), attrs=("X", "scales", "B"), registered=bool(inp.get("registered")),
+                             use_try=True, neutral_point=(None if inp["neutral"] is None else inp["neutral"].copy()),
+                             delta_norm1=d1, delta_radius=dr, adaptive_objective=obj, scale_w=inp["scale_w"], **kw)
     if not okc:
         exc = out
         if feas.status == 2:            # infeasible polyhedron: raising is the correct answer
